@@ -5,7 +5,7 @@ import os
 from harness import core, forkpool, graph, replay, tlc
 from harness.simkernel import Thread, World, import_psutil
 
-FIXES = {"C04overflow"}
+FIXES = {"C04overflow", "C04race"}
 KNOWN = {"C04-reused-skipped"}
 TICK = 50
 PROPS = ["C04_Order", "C04_Complete", "C04_Identity", "C04_Keys", "C04_PidExists"]
@@ -252,6 +252,19 @@ def check(ctx):
     if rr.violated != "C04_PidExists":
         raise core.Machinery("specification no longer exposes the pid_exists() overflow defect of 7.0.0")
     replay_all(ctx, thorough)
+    # the drain of _pids_reused by two iterators: design ...
+    for fx, expect in ((set(FIXES), None), (set(FIXES) - {"C04race"}, "C04_NoError")):
+        cfg = os.path.join(tlc.scratch(), "drain.cfg")
+        tlc.write_cfg(cfg, {"Threads": {"A", "B"}, "Reused": {1, 2}, "Fixes": fx}, spec="Spec",
+                      invariants=["C04_NoError", "C04_EachOnce"], properties=["C04_Terminates"])
+        rd = tlc.run("ProcIterDrain", cfg, workers=4, timeout=300)
+        ctx.tlc("drain-race" + ("" if expect is None else "-regression"), rd)
+        if expect is None and rd.violated:
+            ctx.disagree("model:drain:" + str(rd.violated), "TLC: %s violated by the drain loop" % rd.violated, {"trace": rd.trace[-2:]})
+        if expect is not None and "C04race" in FIXES and rd.violated != expect:
+            raise core.Machinery("specification no longer exposes the drain race of 7.0.0")
+    # ... and code under every schedule with bounded pre-emptions
+    check_threads(ctx, thorough)
 
 
 def replay_all(ctx, thorough, vacuity=True):
@@ -273,6 +286,91 @@ def replay_all(ctx, thorough, vacuity=True):
     beh = replay.sim_behaviours(ctx, "ProcIter", "simulate-3pid-2iter", cs, 3000 if thorough else 500, 50)
     replay.run_jobs(ctx, "simulate-3pid-2iter", [(evs,) for _, evs in beh], run_events, sig_of, "simulated",
                     nontrivial=lambda e: not e["op"].startswith("k_"))
+
+
+# ---------------------------------------------------------------------------
+# two threads iterating at once, under the line-level scheduler
+# ---------------------------------------------------------------------------
+
+def thread_chunk(job):
+    from harness import sched
+    import random
+    seed, bound, limit = job
+    w, ps = template()
+    rnd = random.Random(seed)
+    recs = []
+    state = {}
+
+    def make_bodies(run):
+        for q in list(w.procs):
+            if q != w.caller_pid:
+                del w.procs[q]
+        ps.process_iter.cache_clear()
+        w.spawn(1, start=50)
+        w.spawn(2, start=50)
+        olds = [ps.Process(1), ps.Process(2)]
+        list(ps.process_iter())
+        w.reap(1)
+        w.reap(2)
+        w.spawn(1, start=100)
+        if seed % 2:
+            w.spawn(2, start=100)
+        for o in olds:
+            o.is_running()              # both PIDs found recycled -> _pids_reused
+        out = [[], []]
+        state["out"] = out
+
+        def body(i):
+            def f():
+                for p in ps.process_iter():
+                    out[i].append(p.pid)
+            return f
+        return [body(0), body(1)]
+
+    def on_run(run, plan, err):
+        rec = {"errs": [("" if t.exc is None else type(t.exc).__name__) for t in run.ts],
+               "yielded": state["out"], "listing": sorted(list(w.procs)), "plan": plan}
+        if err is not None:
+            rec["errs"] = ["deadlock: %s" % err, ""]
+        recs.append(rec)
+
+    sched.explore(make_bodies, ("psutil/__init__.py",), bound=bound, limit=limit, rnd=rnd, on_run=on_run)
+    return recs
+
+
+def check_threads(ctx, thorough):
+    import shutil
+    jobs = [(ctx.seed * 17 + i, 3 if thorough else 2, 600 if thorough else 150) for i in range(8)]
+    res = forkpool.map_fork(thread_chunk, jobs, timeout=1500)
+    recs = []
+    for st, val in res:
+        if st != "ok":
+            raise core.Machinery("thread driver failed: %s" % (val,))
+        recs.extend(val)
+    if sum(1 for r0 in recs if r0["plan"]) < 10:
+        raise core.Machinery("vacuity: hardly any pre-empted schedule")
+    d = tlc.scratch()
+    tf = os.path.join(d, "t.ndjson")
+    with open(tf, "w") as f:
+        for r0 in recs:
+            f.write(json.dumps({k: r0[k] for k in ("errs", "yielded", "listing")}) + "\n")
+    cfg = os.path.join(d, "t.cfg")
+    tlc.write_cfg(cfg, {}, invariants=["Accepted"])
+    r = tlc.run("ProcIterDrainTrace", cfg, workers=1, env={"TRACE_FILE": tf}, timeout=900)
+    ctx.tlc("threads-trace-validation", r)
+    shutil.rmtree(d, ignore_errors=True)
+    if r.violated or r.distinct < len(recs):
+        raise core.Machinery("thread trace validation did not complete: %s" % r.violated)
+    ctx.cov["traces_validated_against_impl"] += len(recs)
+    ctx.cov.setdefault("replay", {})["threads"] = {"executions": len(recs), "pre-empted": sum(1 for r0 in recs if r0["plan"])}
+    for r0 in recs:
+        ctx.case(json.dumps([r0["yielded"], r0["plan"]]))
+    for tag, body in [p for p in r.printed if p[0] == "REJECTED"][:3]:
+        vals = tlc.parse_value("<<" + body + ">>")
+        r0 = recs[vals[0] - 1]
+        names = [n for n, ok in zip(["NoError", "Ordered", "Listed"], vals[1]) if not ok]
+        ctx.disagree("threads:" + ",".join(names) + ":" + ",".join(e for e in r0["errs"] if e),
+                     "two threads iterating at once (schedule %s): errors %s, yielded %s" % (r0["plan"], r0["errs"], r0["yielded"]), r0)
 
 
 def main(prop, argv):
